@@ -455,6 +455,9 @@ func (t Table) Lookup(req *http.Request, trace string, pick picker, match matche
 					target.RedirectURL.Host == req.Host &&
 					target.RedirectURL.Path == req.URL.Path {
 					log.Print("[INFO] Skipping redirect with same scheme, host and path")
+					// forget the skipped target: when this was the last
+					// matching host there is no route for the request
+					target = nil
 					continue
 				}
 			}
